@@ -173,8 +173,13 @@ pub fn ttl_for_sig(
     let orig_ttl = sig.data().original_ttl();
     let ttl = min(ttl, orig_ttl);
 
-    let until_expired =
-        sig.data().expiration().into_int() - Timestamp::now().into_int();
+    // Signature times use serial number arithmetic, the expiration time may
+    // have wrapped around.
+    let until_expired = sig
+        .data()
+        .expiration()
+        .into_int()
+        .wrapping_sub(Timestamp::now().into_int());
     let expire_ttl = Ttl::from_secs(until_expired);
     min(ttl, expire_ttl)
 }
